@@ -83,6 +83,10 @@ def gen_plan(seed, k):
         if rp.random() < 0.7:
             at["delay"] = "%dms" % rp.choice([1, 5, 20])
         ioe.add(El("send", at))
+    if child_mode == "token" and rp.random() < 0.5:
+        # a parting shot: the invoking state's onexit (which runs before the invocation is cancelled) sends the child the
+        # event that would finish it, so the child is cancelled with a non-empty queue
+        inv.add(El("onexit", children=[El("send", {"event": "tok", "target": "#_kid"})]))
     leave_mode = rp.choice(["done", "timer", "harness", "child-event", "never"])
     if leave_mode == "timer":
         ioe.add(El("send", {"event": "tleave", "delay": "%dms" % rp.choice([1, 5, 10, 30]), "id": "tl"}))
@@ -255,8 +259,19 @@ def oracle(plan, res):
             v.append(("C11.done-implies-final", "done.invoke.kid processed at seq %d before any further child reached its final state (seq %d)" % (d[SEQ], finals_sorted[i])))
     # enqueue side: done.invoke enqueued at most once per child session
     done_enq = [r for r in lines if r[KIND] == "enq<" and r[SESS] == pext and r[6]["name"] == "done.invoke.kid"]
-    if len(done_enq) > len(children):
-        v.append(("C11.done-at-most-once", "%d done.invoke.kid events enqueued for %d child sessions" % (len(done_enq), len(children))))
+    # "... if and only if the child reached a top-level final state on its own": a child that reaches its final state only
+    # after the cancel request was put into its queue (it is working off what was still queued) does not report
+    # done.invoke.  (A child that finishes by itself while the parent is still on its way to cancel it may.)
+    for n, (c, (s_aiv, s_aun)) in enumerate(zip(children, inv_seq)):
+        cq = b.ext.get(c)
+        marker = [r[SEQ] for r in lines if r[KIND] == "enq<" and r[SESS] == cq and not r[6].get("name") and r[SEQ] > s_aiv]
+        if not marker or c not in child_final or child_final[c] < marker[0]:
+            continue
+        ctask = set(r[TASK] for r in lines if r[SESS] == c and r[KIND] in ("bes", "bms"))
+        late = [d for d in done_enq if d[SEQ] > marker[0] and d[TASK] in ctask]    # the child's own thread reports done.invoke
+        if late:
+            v.append(("C11.done-only-on-its-own", "child %s reached its final state at seq %d, after the cancel request had been put into its queue (seq %d), yet done.invoke.kid was put into the parent's queue at seq %d" % (
+                c, child_final[c], marker[0], late[0][SEQ])))
     # done-eventually: one invocation only, child finished on its own, parent stayed in inv until the quiescent quit
     if plan.get("quiesce") and not res.failed_hard() and len(children) == 1 and n_aiv == 1 and completed:
         c = children[0]
